@@ -14,6 +14,7 @@ C01 — emitted MIR is referentially closed, correctly scoped and acyclic.
 import NadaVerif.Spec.Schema
 import NadaVerif.Lemmas.CompileClosed
 import NadaVerif.Lemmas.TraceInv
+import NadaVerif.Lemmas.FnExact
 
 namespace NadaVerif.C01
 open NadaVerif NadaVerif.Spec NadaVerif.Lemmas NadaVerif.Generated
@@ -78,6 +79,13 @@ theorem compile_acyclic (st : St) (outs : List OutDecl) (m : MirProg)
   have hm := lookup_mem st e.1 e.2 hl
   simp only [storeWF, List.all_eq_true] at hwf
   exact hwf _ hm c hc
+
+/-- Every `fn` / `function_id` reference — in the program table and in every function's own table — names
+**exactly one** element of `functions` (induction over the traversal, the per-output merge and the function
+worklist; any store, any outputs). -/
+theorem compile_fn_refs_resolve (st : St) (outs : List OutDecl) (m : MirProg) (h : compile st outs = .ok m) :
+    ∀ t ∈ allTables m, ∀ e ∈ t, ∀ f, e.2.fnRef = some f → count f (m.functions.map (·.id)) = 1 :=
+  (compile_fn_resolve st outs m h).2
 
 /-- **Whole pipeline**: trace any command list (any program, any rejected commands in between), compile any
 output list from the resulting store — if the compilation succeeds, the MIR is acyclic. -/
